@@ -85,3 +85,13 @@ Proof. vm_compute. reflexivity. Qed.
 Example C03_example_over_limit :
   client_submit Tcp 0 1 (CWriteMultipleCoils 0 (repeat true 1969)) = Err ECountTooBigForType.
 Proof. vm_compute. reflexivity. Qed.
+(* The rejection of empty / overflowing ranges rests on AddressRange::try_from at construction: a
+   request whose range was NOT validated (AddressRange has public fields) is encoded and sent.
+   Outside the quantifier of the theorems above (`call` goes through try_from); replayed on the
+   implementation by the check as an observation (evidence: unvalidated_range_literal_probe). *)
+Example C03_unvalidated_empty_range_is_sent :
+  client_encode Tcp 0 1 (RReadCoils (0, 0)) = Ok [0;0; 0;0; 0;6; 1; 1; 0;0; 0;0].
+Proof. vm_compute. reflexivity. Qed.
+Example C03_unvalidated_overflowing_range_is_sent :
+  client_encode Tcp 1 1 (RReadHoldingRegisters (65535, 10)) = Ok [0;1; 0;0; 0;6; 1; 3; 255;255; 0;10].
+Proof. vm_compute. reflexivity. Qed.
